@@ -289,8 +289,9 @@ func (in *labInst) settle(send func([]byte) error, min int) ([]labRx, error) {
 	}
 	var out []labRx
 	seen := false
+	nmsg := 0 // receptions that carry a message (connection-closed events do not count towards min)
 	deadline := time.Now().Add(20 * time.Second)
-	for !seen || len(out) < min {
+	for !seen || nmsg < min {
 		left := time.Until(deadline)
 		if left <= 0 {
 			if !seen {
@@ -312,6 +313,9 @@ func (in *labInst) settle(send func([]byte) error, min int) ([]labRx, error) {
 		}
 		if in.mine(r) {
 			out = append(out, r)
+			if r.msg != nil && !r.closed {
+				nmsg++
+			}
 		}
 	}
 	time.Sleep(in.grace)
